@@ -1,6 +1,6 @@
 (* C12 lemmas about Model/WidthArith.v: the widening loop of write_or_expand reaches the unlimited width
    u16::MAX after a bounded number of steps from every width >= 2, at u16::MAX consume_width cannot fail,
-   and nothing in the arithmetic panics while tab_len * indent fits u16. *)
+   and nothing in the arithmetic panics (since b4fb037 the indentation product saturates). *)
 From Coq Require Import List ZArith Bool Lia Arith.
 From PV Require Import Model.Checked Model.WidthArith Proofs.CheckedProofs.
 Import ListNotations.
@@ -35,30 +35,27 @@ Proof.
 Qed.
 
 (* ---- reset_line ---- *)
-Lemma mul16_tab i : 0 <= i <= indent_max -> mul16 tab_len i = Ret (2 * i).
+Theorem reset_line_total o : reset_line o <> Panic.
+Proof. unfold reset_line. discriminate. Qed.
+
+Lemma sat_mul16_le a b : sat_mul16 a b <= u16_max.
+Proof. unfold sat_mul16. apply Z.le_min_l. Qed.
+
+(* at the unlimited width the line can always be reset, whatever the indent *)
+Theorem reset_line_unlimited o : max_width o = u16_max ->
+  exists r, reset_line o = Ret (Some (WOpt u16_max r (indent o))) /\ 0 <= r.
 Proof.
-  intro H. unfold mul16, tab_len. assert (E : in_u16 (2 * i) = true).
-  { apply in_u16_spec. unfold indent_max in H. rewrite u16_max_val. lia. }
-  rewrite E. reflexivity.
+  intro Hm. unfold reset_line, checked_sub16. rewrite Hm.
+  pose proof (sat_mul16_le tab_len (indent o)) as L.
+  destruct (Z.leb_spec (sat_mul16 tab_len (indent o)) u16_max) as [L'|L']; [|lia].
+  eexists. split; [reflexivity | lia].
 Qed.
 
-Theorem reset_line_total o : 0 <= indent o <= indent_max -> reset_line o <> Panic.
-Proof. intro H. unfold reset_line. rewrite mul16_tab by exact H. discriminate. Qed.
-
-Theorem reset_line_panics o : indent_max < indent o -> reset_line o = Panic.
+(* the indent stays a u16 under the saturating increments / decrements *)
+Theorem indent_in_out_range o : 0 <= indent o <= u16_max ->
+  0 <= indent (indent_in o) <= u16_max /\ 0 <= indent (indent_out o) <= u16_max.
 Proof.
-  intro H. unfold reset_line, mul16, tab_len. assert (E : in_u16 (2 * indent o) = false).
-  { destruct (in_u16 (2 * indent o)) eqn:E; [|reflexivity]. apply in_u16_spec in E.
-    unfold indent_max in H. rewrite u16_max_val in E. lia. }
-  rewrite E. reflexivity.
-Qed.
-
-Theorem reset_line_unlimited o : max_width o = u16_max -> 0 <= indent o <= indent_max ->
-  reset_line o = Ret (Some (WOpt u16_max (u16_max - 2 * indent o) (indent o))).
-Proof.
-  intros Hm Hi. unfold reset_line. rewrite mul16_tab by exact Hi. cbn [bind].
-  unfold checked_sub16. rewrite Hm. destruct (Z.leb_spec (2 * indent o) u16_max) as [L|L]; [reflexivity|].
-  unfold indent_max in Hi. rewrite u16_max_val in L. lia.
+  intro H. unfold indent_in, indent_out, sat_add16. cbn [indent]. rewrite u16_max_val in *. lia.
 Qed.
 
 (* ---- widening ---- *)
@@ -111,11 +108,11 @@ Proof. split; vm_compute; [reflexivity | discriminate]. Qed.
 Theorem widen_stuck_below_2 n : iterw n 1 = 1 /\ iterw n 0 = 0.
 Proof. induction n as [|n [IH1 IH0]]; cbn [iterw]; [auto|]. rewrite IH1, IH0. split; reflexivity. Qed.
 
-Lemma widen_ret o : 0 <= indent o <= indent_max ->
+Lemma widen_ret o :
   exists o', widen o = Ret o' /\ max_width o' = widen_width (max_width o) /\ indent o' = indent o.
 Proof.
-  intro H. unfold widen, reset_line. cbn [indent max_width]. rewrite mul16_tab by exact H. cbn [bind].
-  destruct (checked_sub16 (widen_width (max_width o)) (2 * indent o)); eexists; (split; [reflexivity|]); cbn; auto.
+  unfold widen, reset_line. cbn [indent max_width bind].
+  destruct (checked_sub16 (widen_width (max_width o)) (sat_mul16 tab_len (indent o))); eexists; (split; [reflexivity|]); cbn; auto.
 Qed.
 
 Lemma iter_succ_r n (a : Z) : iterw (S n) a = iterw n (widen_width a).
@@ -127,22 +124,20 @@ Section ExpandProofs.
   (* what is NOT proved here: that the layout succeeds once the width is unlimited *)
   Hypothesis write_unlimited : forall o, max_width o = u16_max -> write o <> None.
 
-  Lemma expand_within n : forall o, 0 <= indent o <= indent_max ->
+  Lemma expand_within n : forall o,
     iterw n (max_width o) = u16_max -> exists s, expand write (S n) o = Ret (Some s).
   Proof.
-    induction n as [|n IH]; intros o Hi Hw; cbn [expand].
+    induction n as [|n IH]; intros o Hw; cbn [expand].
     - cbn [iterw] in Hw. specialize (write_unlimited o Hw). destruct (write o) as [s|]; [eauto | congruence].
     - destruct (write o) as [s|] eqn:E; [eauto|].
-      destruct (widen_ret o Hi) as (o' & Eo & Em & Ei). rewrite Eo. cbn [bind].
-      apply IH; [rewrite Ei; exact Hi|]. rewrite Em. rewrite <- iter_succ_r. exact Hw.
+      destruct (widen_ret o) as (o' & Eo & Em & Ei). rewrite Eo. cbn [bind].
+      apply IH. rewrite Em. rewrite <- iter_succ_r. exact Hw.
   Qed.
 
   (* write_or_expand returns after at most 28 calls of `write` (19 from the default width) *)
-  Theorem expand_terminates o : 2 <= max_width o <= u16_max -> 0 <= indent o <= indent_max ->
-    exists s, expand write 28 o = Ret (Some s).
-  Proof. intros Hw Hi. apply expand_within; [exact Hi | apply widen_reaches_unlimited; exact Hw]. Qed.
+  Theorem expand_terminates o : 2 <= max_width o <= u16_max -> exists s, expand write 28 o = Ret (Some s).
+  Proof. intros Hw. apply expand_within. apply widen_reaches_unlimited; exact Hw. Qed.
 
-  Theorem expand_terminates_default o : max_width o = 50 -> 0 <= indent o <= indent_max ->
-    exists s, expand write 19 o = Ret (Some s).
-  Proof. intros Hw Hi. apply expand_within; [exact Hi | rewrite Hw; apply widen_from_default]. Qed.
+  Theorem expand_terminates_default o : max_width o = 50 -> exists s, expand write 19 o = Ret (Some s).
+  Proof. intros Hw. apply expand_within. rewrite Hw; apply widen_from_default. Qed.
 End ExpandProofs.
